@@ -35,6 +35,8 @@ Refused == E.op = "deltable" /\ E.r = -998
 ExpSt  == IF Refused THEN st ELSE After(st, E.op, E.u, E.a, E.b)
 ExpR   == IF Refused THEN -998
           ELSE IF E.op = "limit" THEN LimitReply(E.a, E.rl[2], E.b, E.rl[1], E.r)   \* a = key, b = sub-key, rl = <<value, table:key>> lengths
+          ELSE IF E.op = "pfadd" \/ (E.op = "del" /\ E.u \in Tups /\ TyOf(E.u) = 8)
+               THEN E.r   \* replies of PFADD, and of DEL on a HyperLogLog key (write cache, recorded under C07), are not modelled
           ELSE ReplyOf(st, E.op, E.u, E.a, E.b)
 ExpRl  == IF E.op = "keys" THEN KeysOf(st, TyOf(E.u), TabOf(E.u))
           ELSE IF E.op = "limit" THEN E.rl ELSE <<>>
